@@ -307,10 +307,20 @@ def shortcuts(ctx, rule='A5'):
     ctx.ob(rule, fkey(gb, rule, 'no-candidates-no-crash'), ok, gb.where,
            'an empty score table (every candidate rejected in a stage) yields "no best" instead of an exception', '')
     ge = ctx.fn(f'{ENC}:EagerEncoder.get_design_variables')
-    t = FnText(ctx, ge)
-    ok = 'if des_vectors.shape[0] == 0 or des_vectors.shape[1] == 0' in t
-    ctx.ob(rule, fkey(ge, rule, 'eager-no-variables-for-trivial'), ok, ge.where,
-           'an existence pattern with no matrices or no design variables declares no variable', '')
+    gcfg = build_cfg(ge)
+    sinks = guards.nodes_with(gcfg, lambda sub: isinstance(sub, ast.Call) and norm(sub.func) in ('np.min', 'np.max')
+                              and sub.args and 'des_vectors' in norm(sub.args[0]))
+    for dim in (0, 1):
+        def nonzero(atom, truth, dim=dim):
+            if not (isinstance(atom, ast.Compare) and len(atom.ops) == 1 and
+                    norm(atom.left) == f'des_vectors.shape[{dim}]' and norm(atom.comparators[0]) == '0'):
+                return False
+            return (isinstance(atom.ops[0], ast.Eq) and truth is False) or \
+                (isinstance(atom.ops[0], (ast.NotEq, ast.Gt)) and truth is True)
+        guards.check_guarded(ctx, rule, ge, sinks, nonzero, ['des_vectors'], f'eager-reduction-nonempty-dim{dim}',
+                             f'the minimum/maximum over the stored design vectors of an existence pattern is only '
+                             f'taken when the table is not empty along axis {dim} (no matrices / no variables would '
+                             f'raise inside numpy)')
     nv = ctx.fn(f'{ENC}:EagerEncoder.normalize_design_vectors')
     t = FnText(ctx, nv)
     ok = 'no_opts_mask = np.max(design_vectors, axis=0) == 0' in t and 'design_vectors[:, ~no_opts_mask]' in t
@@ -335,6 +345,8 @@ def check(ctx):
 from ..selftest import V  # noqa: E402
 
 VARIANTS = [
+    V('eager-reduction-over-empty-table', 'optimization/assign_enc/encoding.py',
+      [("            if des_vectors.shape[1] == 0:\n                design_vars_list.append([])\n                continue\n", "")], key='eager-reduction-nonempty-dim1'),
     V('view-written', 'optimization/assign_enc/selector.py',
       [("            dist_corr_values = df.dist_corr.values.copy()\n", "            dist_corr_values = df.dist_corr.values\n")], key='view-store'),
     V('memory-error-escapes', 'optimization/assign_enc/selector.py',
